@@ -1398,7 +1398,10 @@ class Engine:
         if mr and isinstance(node, (ast.Assign, ast.Expr, ast.AugAssign)):
             hits = [c for c in ast.walk(node) if isinstance(c, ast.Call) and ((self.dotted(c.func) or "").split(".")[-1] in mr)]
             for c in hits:
-                cond = z3.Bool(fresh_name("raises!%s@%d" % ((self.dotted(c.func) or "?").split(".")[-1], node.lineno)))
+                nm_ = (self.dotted(c.func) or "?").split(".")[-1]
+                mk_ = getattr(self, "may_raise_conds", {}).get(nm_)
+                # the sidecar may say WHEN the call raises (a predicate of its arguments: the outcome is then a function of the input, not an arbitrary choice per visit)
+                cond = mk_(self, st, c) if mk_ is not None else z3.Bool(fresh_name("raises!%s@%d" % (nm_, node.lineno)))
                 s_exc = st.fork()
                 s_exc.assume(cond)
                 if self.feasible(s_exc):
